@@ -14,7 +14,7 @@
 // keep-alive ping) | dup{n} | spur{seq: id} | ptimeout | sleep{ms}; every op may carry ms = delay
 // before the op. sc.P: n, kinds[n], mode = "sync" (wait for the observable effect of every
 // op: the environment projection with internal steps run to quiescence) | "burst" (no waits),
-// holdPong (the first pong is scripted), pingMs [interval, timeout], wdMs (watchdog), procs (GOMAXPROCS during the scenario), queued (the client end of the pipe is
+// idStart (position of the request id counter after the handshake), holdPong (the first pong is scripted), pingMs [interval, timeout], wdMs (watchdog), procs (GOMAXPROCS during the scenario), queued (the client end of the pipe is
 // wrapped by a queue: the broker's writes never wait for the client, and the ops hold / release make the client's transport
 // deliver everything the broker wrote in between back to back - a burst in the network).
 package reqreply
@@ -108,6 +108,10 @@ func (t *qtr) queued() int {
 
 var kindsAll = []string{"upOpen", "downOpen", "meta", "upClose", "downClose", "upResume", "downResume"}
 
+// i32 is the int32 view of a request id: TLC's integers are 32 bit signed, ids at and above 2^31 are logged as negative numbers
+// (parity and distinctness are preserved).
+func i32(x uint32) int { return int(int32(x)) }
+
 func tagUUID(t int) uuid.UUID {
 	return uuid.MustParse(fmt.Sprintf("00000000-0000-4000-8000-%012d", t))
 }
@@ -182,6 +186,7 @@ type drv struct {
 	cond      *sync.Cond
 	reqs      map[int]reqInfo // tag -> request seen by the broker
 	firstPing int64           // rid of the first ping, -1 = none yet
+	autoPongs int             // pongs written by the broker on its own
 	holdPong  bool
 	pongHeld  bool // the first pong is still withheld
 	cliClosed bool // the broker saw the client end close
@@ -229,7 +234,7 @@ func (d *drv) brokerLoop(wg *sync.WaitGroup) {
 		}
 		switch m := msg.(type) {
 		case *message.ConnectRequest:
-			d.rec.Log("BRecv", "rid", int(m.RequestID), "kind", "connect", "tag", -1)
+			d.rec.Log("BRecv", "rid", i32(uint32(m.RequestID)), "kind", "connect", "tag", -1)
 			d.bwrite(&message.ConnectResponse{RequestID: m.RequestID, ProtocolVersion: m.ProtocolVersion, ResultCode: message.ResultCodeSucceeded})
 		case *message.Ping:
 			d.mu.Lock()
@@ -241,13 +246,17 @@ func (d *drv) brokerLoop(wg *sync.WaitGroup) {
 			hold := first && d.holdPong
 			d.cond.Broadcast()
 			d.mu.Unlock()
-			d.rec.Log("BRecv", "rid", int(m.RequestID), "kind", "ping", "tag", 0)
+			d.rec.Log("BRecv", "rid", i32(uint32(m.RequestID)), "kind", "ping", "tag", 0)
 			if !hold {
 				rid := m.RequestID
 				// later keep-alive pings are answered at once (not part of the script)
 				go func() {
-					d.rec.Log("BSend", "rid", int(rid), "tag", 0, "how", "auto")
+					d.rec.Log("BSend", "rid", i32(uint32(rid)), "tag", 0, "how", "auto")
 					d.bwrite(&message.Pong{RequestID: rid})
+					d.mu.Lock()
+					d.autoPongs++
+					d.cond.Broadcast()
+					d.mu.Unlock()
 				}()
 			}
 		case *message.Pong:
@@ -277,7 +286,7 @@ func (d *drv) brokerLoop(wg *sync.WaitGroup) {
 			case *message.DownstreamResumeRequest:
 				tag, kind = uuidTag(r.StreamID), "downResume"
 			}
-			d.rec.Log("BRecv", "rid", int(req.GetRequestID()), "kind", kind, "tag", tag)
+			d.rec.Log("BRecv", "rid", i32(uint32(req.GetRequestID())), "kind", kind, "tag", tag)
 			d.mu.Lock()
 			if _, dup := d.reqs[tag]; !dup {
 				d.reqs[tag] = reqInfo{rid: req.GetRequestID(), kind: kind}
@@ -353,46 +362,46 @@ func (d *drv) call(tag int) {
 			var r *message.UpstreamOpenResponse
 			r, err = d.conn.SendUpstreamOpenRequest(ctx, &message.UpstreamOpenRequest{SessionID: fmt.Sprintf("tag-%d", tag), QoS: message.QoSUnreliable})
 			if err == nil {
-				rid, st = int(r.RequestID), r.ResultString
+				rid, st = i32(uint32(r.RequestID)), r.ResultString
 				xok = r.AssignedStreamIDAlias == uint32(1000+tag) && r.AssignedStreamID == tagUUID(tag+5000)
 			}
 		case "downOpen":
 			var r *message.DownstreamOpenResponse
 			r, err = d.conn.SendDownstreamOpenRequest(ctx, &message.DownstreamOpenRequest{DesiredStreamIDAlias: uint32(100 + tag), QoS: message.QoSUnreliable})
 			if err == nil {
-				rid, st = int(r.RequestID), r.ResultString
+				rid, st = i32(uint32(r.RequestID)), r.ResultString
 				xok = r.AssignedStreamID == tagUUID(tag+5000)
 			}
 		case "meta":
 			var r *message.UpstreamMetadataAck
 			r, err = d.conn.SendUpstreamMetadata(ctx, &message.UpstreamMetadata{Metadata: &message.BaseTime{SessionID: "s", Name: fmt.Sprintf("tag-%d", tag), BaseTime: time.Unix(1, 0).UTC()}})
 			if err == nil {
-				rid, st = int(r.RequestID), r.ResultString
+				rid, st = i32(uint32(r.RequestID)), r.ResultString
 			}
 		case "upClose":
 			var r *message.UpstreamCloseResponse
 			r, err = d.conn.SendUpstreamCloseRequest(ctx, &message.UpstreamCloseRequest{StreamID: tagUUID(tag)})
 			if err == nil {
-				rid, st = int(r.RequestID), r.ResultString
+				rid, st = i32(uint32(r.RequestID)), r.ResultString
 			}
 		case "downClose":
 			var r *message.DownstreamCloseResponse
 			r, err = d.conn.SendDownstreamCloseRequest(ctx, &message.DownstreamCloseRequest{StreamID: tagUUID(tag)})
 			if err == nil {
-				rid, st = int(r.RequestID), r.ResultString
+				rid, st = i32(uint32(r.RequestID)), r.ResultString
 			}
 		case "upResume":
 			var r *message.UpstreamResumeResponse
 			r, err = d.conn.SendUpstreamResumeRequest(ctx, &message.UpstreamResumeRequest{StreamID: tagUUID(tag)}, message.QoSUnreliable)
 			if err == nil {
-				rid, st = int(r.RequestID), r.ResultString
+				rid, st = i32(uint32(r.RequestID)), r.ResultString
 				xok = r.AssignedStreamIDAlias == uint32(1000+tag)
 			}
 		case "downResume":
 			var r *message.DownstreamResumeResponse
 			r, err = d.conn.SendDownstreamResumeRequest(ctx, &message.DownstreamResumeRequest{StreamID: tagUUID(tag), DesiredStreamIDAlias: uint32(100 + tag)})
 			if err == nil {
-				rid, st = int(r.RequestID), r.ResultString
+				rid, st = i32(uint32(r.RequestID)), r.ResultString
 			}
 		default:
 			err = fmt.Errorf("unknown kind")
@@ -403,6 +412,9 @@ func (d *drv) call(tag int) {
 		cls = "panic"
 	}
 	srid, stag, how := parseStamp(st)
+	if srid >= 0 {
+		srid = i32(uint32(srid))
+	}
 	d.rec.Log("CallRet", "tag", tag, "kind", kind, "err", cls, "rid", rid, "srid", srid, "stag", stag, "how", how, "xok", xok)
 	d.mu.Lock()
 	close(d.done[tag])
@@ -480,7 +492,7 @@ func (d *drv) send(tag int, how string) {
 			d.pongHeld = false
 		}
 		d.mu.Unlock()
-		d.rec.Log("BSend", "rid", int(rid), "tag", 0, "how", how)
+		d.rec.Log("BSend", "rid", i32(uint32(rid)), "tag", 0, "how", how)
 		d.bwrite(&message.Pong{RequestID: message.RequestID(rid)})
 		return
 	}
@@ -497,9 +509,9 @@ func (d *drv) send(tag int, how string) {
 	if how == "ans" {
 		d.answered[tag] = true
 	}
-	d.rec.Log("BSend", "rid", int(ri.rid), "tag", tag, "how", how)
+	d.rec.Log("BSend", "rid", i32(uint32(ri.rid)), "tag", tag, "how", how)
 	if err := d.bwrite(response(ri.kind, ri.rid, tag, stamp(ri.rid, tag, how))); err != nil {
-		d.rec.Log("BSendErr", "rid", int(ri.rid), "tag", tag)
+		d.rec.Log("BSendErr", "rid", i32(uint32(ri.rid)), "tag", tag)
 	}
 	if d.sync && how == "ans" && !d.cancelled[tag] {
 		d.waitDone(tag, "answered")
@@ -583,6 +595,17 @@ func run(sc *h.Scenario) *h.Rec {
 		rec.Log("Inconclusive", "why", "no keep-alive ping after the handshake")
 	}
 
+	if v, ok := sc.P["idStart"].(float64); ok {
+		// position the request id counter (e.g. just below the uint32 boundary): ids issued from here on are those of a
+		// connection that has already issued about 2^31 requests
+		// (not while the first keep-alive ping is outstanding: the ids just above the boundary would collide with it)
+		if !d.holdPong {
+			d.waitCond(d.wd, func() bool { return d.autoPongs > 0 })
+			time.Sleep(5 * time.Millisecond)
+		}
+		conn.VerifSetRequestIDCounter(uint32(v))
+		rec.Log("IdCounterSet", "v", i32(uint32(v)))
+	}
 	for i := range sc.Steps {
 		st := &sc.Steps[i]
 		if st.Ms > 0 {
